@@ -36,6 +36,7 @@ type wireFrame struct {
 }
 
 type callPlan struct {
+	bulk    int       // C12: where the bulk of a shaped reply sits (0,1: result; 2: response header; 3: half in the cid)
 	reuse   *callPlan // use the FContext of this earlier call of the same caller again
 	ctx     frugal.FContext
 	sameCtx []*callPlan // every plan that went out on this plan's FContext object (itself included)
